@@ -368,4 +368,7 @@ def check(ctx):
     ctx.run('C12.R4', 'Ring teardown: flush, sync-cancel ANY|ALL, reclaiming poll; no early return', r4_ring_teardown)
     ctx.run('C12.R5', 'ReadBufPool::drop: unregister before dealloc; layouts agree with new; null check', r5_pool_drop)
     ctx.run('C12.R6', 'descriptor dropped after the Ring: accepting a CLOSE must depend on ring liveness', r6_fd_after_ring)
+    from . import c07
+    ctx.run('C12.R8', 'an AsyncFd dropped in any state releases exactly its own descriptor: queued close XOR one synchronous close of the right kind (C07.R4)', c07.r4_drop_paths)
+    ctx.run('C12.R9', 'close encodings name the dropped descriptor itself (fd / file_index = fd+1 / files_update.offset = fd) (C07.R5)', c07.r5_encodings)
     ctx.run('C12.R7', 'LIFE-3/4: abandoned states are reclaimed by the final completion processed in teardown', life.life4)
